@@ -149,8 +149,12 @@ pub struct Engine {
     pub assumptions: Mutex<Vec<String>>,
     pub exhaustive: Mutex<Option<(bool, String)>>,
     pub stop: AtomicBool,
+    /// lowest job index that recorded a failure; jobs with a higher index are skipped so that a failing run ends
+    /// quickly while the lowest-index failure stays a deterministic function of tree and seed
+    stop_after: AtomicUsize,
     pub max_shrink_iters: u32,
     watch: Vec<AtomicU64>,
+    cur_case: Vec<Mutex<Option<Value>>>,
 }
 
 fn fnv(s: &str) -> u64 {
@@ -257,8 +261,10 @@ impl Engine {
             assumptions: Mutex::new(Vec::new()),
             exhaustive: Mutex::new(None),
             stop: AtomicBool::new(false),
-            max_shrink_iters: 3000,
+            stop_after: AtomicUsize::new(usize::MAX),
+            max_shrink_iters: 1200,
             watch: (0..64).map(|_| AtomicU64::new(0)).collect(),
+            cur_case: (0..64).map(|_| Mutex::new(None)).collect(),
         }
     }
 
@@ -307,10 +313,13 @@ impl Engine {
                     .spawn_scoped(s, move || {
                         WORKER.with(|x| *x.borrow_mut() = w);
                         loop {
-                            let i = next.fetch_add(1, Ordering::SeqCst);
-                            if i >= n {
+                            // jobs are scheduled from the last to the first: callers list cheap / small jobs first (so
+                            // that the lowest-index failure is a small case) and the expensive ones start first
+                            let k = next.fetch_add(1, Ordering::SeqCst);
+                            if k >= n {
                                 break;
                             }
+                            let i = n - 1 - k;
                             let job = slots[i].lock().unwrap().take().unwrap();
                             let mut jc = JobCtx {
                                 engine: self,
@@ -493,17 +502,29 @@ fn now_ms() -> u64 {
 impl Engine {
     /// Watchdog: a job that makes no progress for `limit_s` aborts the run as INCONCLUSIVE (exit 2).
     /// Checks call `tick()` at the start of every case.
-    pub fn start_watchdog(&'static self, limit_s: u64, on_timeout: fn(&Engine)) {
+    pub fn start_watchdog(&'static self, limit_s: u64, on_timeout: fn(&Engine, &[Value])) {
         std::thread::spawn(move || loop {
             std::thread::sleep(std::time::Duration::from_millis(1000));
             let now = now_ms();
-            for w in self.watch.iter() {
+            let mut hung = Vec::new();
+            for (i, w) in self.watch.iter().enumerate() {
                 let t = w.load(Ordering::Relaxed);
                 if t != 0 && now.saturating_sub(t) > limit_s * 1000 {
-                    on_timeout(self);
+                    hung.push(self.cur_case[i].lock().unwrap().clone().unwrap_or(Value::Null));
                 }
             }
+            if !hung.is_empty() {
+                on_timeout(self, &hung);
+            }
         });
+    }
+
+    /// remember the case the current worker is about to execute (used by the C10 hang handler)
+    pub fn set_current_case(&self, v: Value) {
+        let w = WORKER.with(|x| *x.borrow());
+        if w < self.cur_case.len() {
+            *self.cur_case[w].lock().unwrap() = Some(v);
+        }
     }
 
     pub fn tick(&self) {
@@ -514,7 +535,7 @@ impl Engine {
     }
 }
 
-pub fn default_timeout(e: &Engine) {
+pub fn default_timeout(e: &Engine, _hung: &[Value]) {
     println!("INCONCLUSIVE property={} a case exceeded the watchdog limit (resource problem, not a violation)", e.id);
     std::process::exit(2);
 }
@@ -524,7 +545,12 @@ impl<'e> JobCtx<'e> {
         Obs { local: &self.local, counting: true }
     }
 
+    fn skipped(&self) -> bool {
+        self.job > self.engine.stop_after.load(Ordering::Relaxed)
+    }
+
     fn record_failure(&self, case: Value, f: Fail, shrunk: bool) {
+        self.engine.stop_after.fetch_min(self.job, Ordering::SeqCst);
         self.failures.borrow_mut().push(Failure { job: self.job, case, sig: f.sig, msg: f.msg, shrunk });
     }
 
@@ -534,6 +560,9 @@ impl<'e> JobCtx<'e> {
 
     /// Run one deterministic (enumerated) case.
     pub fn run_case<C>(&self, case: &C, to_json: impl Fn(&C) -> Value, check: impl Fn(&C, &mut Obs) -> Result<(), Fail>) {
+        if self.skipped() || !self.failures.borrow().is_empty() {
+            return;
+        }
         self.engine.tick();
         let mut obs = self.obs();
         obs.eval();
@@ -559,7 +588,7 @@ impl<'e> JobCtx<'e> {
     where
         S: Strategy,
     {
-        if cases == 0 {
+        if cases == 0 || self.skipped() || !self.failures.borrow().is_empty() {
             return true;
         }
         let cfg = Config {
@@ -576,6 +605,10 @@ impl<'e> JobCtx<'e> {
         let last_fail: RefCell<Option<Fail>> = RefCell::new(None);
         let res = runner.run(strat, |v| {
             self.engine.tick();
+            if self.skipped() {
+                // a lower-numbered job already holds a failure: finish (or stop shrinking) quickly
+                return Ok(());
+            }
             let mut obs = Obs { local: &self.local, counting: !failed.get() };
             obs.eval();
             match check(&v, &mut obs) {
